@@ -573,7 +573,7 @@ def parseChunk(raw):  # reading transfer encoded raw
         for ext in exts:
             ext = ext.strip()
             name, sep, value = ext.partition(b'=')
-            parms[name.strip()] = value.strip() or None
+            parms[bytes(name.strip())] = bytes(value.strip()) or None
 
     if size == 0:  # last chunk so parse trailing headers if any
         leaderParser = parseLeader(raw=raw,
